@@ -41,7 +41,87 @@ let index_cmd (toks : string list) : string option =
       Some ("I " ^ pr_recs i ^ " E " ^ pr_recs e)
   | _ -> None
 
-let handlers : (string list -> string option) list ref = ref [index_cmd]
+(* ---- tree commands ---- *)
+let dump_tree (t : tree) : string =
+  let b = Buffer.create 256 in
+  Buffer.add_string b (Printf.sprintf "H=%d" (List.length t.t_levels));
+  List.iteri (fun l groups ->
+    Buffer.add_string b (Printf.sprintf " | L%d:" l);
+    List.iter (fun g ->
+      Buffer.add_string b (Printf.sprintf " [%s %s %s:" (zs g.cg_first) (zs g.cg_last) (zs g.cg_n));
+      List.iter (fun c -> Buffer.add_string b (" " ^ zs c)) g.cg_cells;
+      Buffer.add_string b "]") groups) t.t_levels;
+  Buffer.add_string b " | P:";
+  List.iter (fun g ->
+    Buffer.add_string b (Printf.sprintf " [%s %s %s %s:" (zs g.pg_first) (zs g.pg_last) (zs g.pg_nl) (zs g.pg_np));
+    List.iter (fun lf ->
+      Buffer.add_string b (Printf.sprintf " (%s %s %s:" (zs lf.lf_index) (zs lf.lf_n) (zs lf.lf_off));
+      let parts = List.sort compare (List.map zi lf.lf_parts) in
+      List.iter (fun p -> Buffer.add_string b (" " ^ string_of_int p)) parts;
+      Buffer.add_string b ")") g.pg_leaves;
+    Buffer.add_string b "]") t.t_pgroups;
+  Buffer.contents b
+
+let rec split_at_bar (toks : string list) : string list * string list =
+  match toks with
+  | [] -> ([], [])
+  | "|" :: r -> ([], r)
+  | x :: r -> let (a, b) = split_at_bar r in (x :: a, b)
+
+let rec take n l = if n <= 0 then [] else match l with [] -> [] | x :: r -> x :: take (n-1) r
+let rec drop n l = if n <= 0 then l else match l with [] -> [] | _ :: r -> drop (n-1) r
+
+(* grid coordinate of a numerator n (position n/(16*2^(H-1)) in the unit box; upper face clamps) *)
+let coord_of_num (h : int) (n : int) : int =
+  let lim = 1 lsl (h - 1) in
+  let c = n / 16 in if c >= lim then lim - 1 else c
+
+let parse_tree (toks : string list) =
+  match toks with
+  | "tree" :: d :: per :: h :: b :: mode :: n :: rest ->
+      let d = int_of_string d and h = int_of_string h and n = int_of_string n in
+      let (nums, queries) = split_at_bar rest in
+      let nums = List.map int_of_string nums in
+      let dn = nat_of_int d in
+      let rec parts l = if l = [] then [] else take d l :: parts (drop d l) in
+      let coords = List.map (List.map (fun x -> iz (coord_of_num h x))) (parts nums) in
+      ignore n;
+      let idx = List.map (box dn) coords in
+      let t = build (parent dn) (iz h) (z_of_string b) (bool_of_tok mode) idx in
+      Some (d, bool_of_tok per, h, t, idx, queries)
+  | _ -> None
+
+let opt_pair = function Some (g, k) -> zs g ^ " " ^ zs k | None -> "none"
+let opt_z = function Some k -> zs k | None -> "none"
+
+let tree_cmd (toks : string list) : string option =
+  match parse_tree toks with
+  | None -> None
+  | Some (d, _per, _h, t, _idx, queries) ->
+      let dn = nat_of_int d in
+      let b = Buffer.create 256 in
+      Buffer.add_string b (dump_tree t);
+      let rec go q =
+        match q with
+        | [] -> ()
+        | "fc" :: l :: i :: r -> Buffer.add_string b (" || " ^ opt_pair (find_cell t (z_of_string l) (z_of_string i))); skip r
+        | "fl" :: i :: r -> Buffer.add_string b (" || " ^ opt_pair (find_leaf t (z_of_string i))); skip r
+        | "ei" :: l :: g :: i :: r ->
+            let grp = List.nth (List.nth t.t_levels (int_of_string l)) (int_of_string g) in
+            Buffer.add_string b (" || " ^ opt_z (cg_find grp (z_of_string i))); skip r
+        | "ep" :: l :: g :: i :: r ->
+            let grp = List.nth (List.nth t.t_levels (int_of_string l)) (int_of_string g) in
+            Buffer.add_string b (" || " ^ opt_z (cg_find_parent (parent dn) grp (z_of_string i))); skip r
+        | "li" :: g :: i :: r ->
+            let grp = List.nth t.t_pgroups (int_of_string g) in
+            Buffer.add_string b (" || " ^ opt_z (pg_find grp (z_of_string i))); skip r
+        | ("data" | "zero") :: r -> Buffer.add_string b " || -"; skip r   (* decided by the oracle, not the model *)
+        | x :: _ -> Buffer.add_string b (" || ?query " ^ x)
+      and skip r = match r with "|" :: r' -> go r' | [] -> () | x :: _ -> Buffer.add_string b (" || ?syntax " ^ x) in
+      go queries;
+      Some (Buffer.contents b)
+
+let handlers : (string list -> string option) list ref = ref [index_cmd; tree_cmd]
 
 let () =
   let ic = open_in Sys.argv.(1) in
